@@ -977,6 +977,67 @@ theorem final_sync_drains {kind : Nat → Kind} {jobs : Nat → List Act} {s : S
   · subst ht; simp
   · simpa [upd_other _ _ _ _ ht] using ho t ht
 
+/-! ### progress -/
+
+/-- the branch whose mutex a goroutine needs for its next step, if that step is an acquisition -/
+def wants (th : Thr) : Option Nat :=
+  match th.ph, th.todo with
+  | .idle, .sync b :: _ => some b
+  | .enc _ b _ [], _ => some b
+  | _, _ => none
+
+/-- a goroutine inside a critical section is never blocked (no nested locks, no waiting under the mutex) -/
+theorem holder_can_step {kind : Nat → Kind} {jobs : Nat → List Act} {s : St} (h : Inv kind jobs s) {b u : Nat}
+    (hl : s.lock b = some u) (c : Nat) : (step kind false s u c).isSome = true := by
+  have hh := (h.brn b).hold u hl
+  unfold step
+  cases hph : (s.thr u).ph with
+  | idle => rw [hph] at hh; simp [holds] at hh
+  | enc k br line rest => rw [hph] at hh; simp [holds] at hh
+  | fin k => rw [hph] at hh; simp [holds] at hh
+  | pre k br line => simp only [hph]; split <;> (try split) <;> rfl
+  | emit k br line i => simp only [hph]; split <;> rfl
+  | copy k br line i => simp only [hph]; split <;> rfl
+  | flush br => simp only [hph]; rfl
+
+/-- a goroutine that cannot step is finished, or waits for a mutex somebody holds, or is at `Get` and the pool does
+    not hand out buffer c -/
+theorem blocked_cases {kind : Nat → Kind} {s : St} {t c : Nat} (hs : step kind false s t c = none) :
+    ((s.thr t).todo = [] ∧ (s.thr t).ph = .idle) ∨
+    (∃ b u, wants (s.thr t) = some b ∧ s.lock b = some u) ∨
+    ((s.thr t).ph = .idle ∧ (∃ br line rest, (s.thr t).todo = .write br line :: rest) ∧ (s.pool c).owner ≠ none) := by
+  unfold step at hs
+  cases hph : (s.thr t).ph with
+  | idle =>
+    simp only [hph] at hs
+    cases htd : (s.thr t).todo with
+    | nil => exact .inl ⟨rfl, rfl⟩
+    | cons a rest =>
+      cases a with
+      | write br line =>
+        simp only [htd] at hs
+        split at hs
+        · cases hs
+        · rename_i hc; exact .inr (.inr ⟨rfl, ⟨br, line, rest, rfl⟩, hc⟩)
+      | sync br =>
+        simp only [htd] at hs
+        cases hl : s.lock br with
+        | none => simp [hl] at hs
+        | some u => exact .inr (.inl ⟨br, u, by simp [wants, hph, htd], hl⟩)
+  | enc k br line rest =>
+    simp only [hph] at hs
+    cases rest with
+    | cons x r => cases hs
+    | nil =>
+      cases hl : s.lock br with
+      | none => simp [hl] at hs
+      | some u => exact .inr (.inl ⟨br, u, by simp [wants, hph], hl⟩)
+  | pre k br line => simp only [hph] at hs; split at hs <;> (try split at hs) <;> cases hs
+  | emit k br line i => simp only [hph] at hs; split at hs <;> cases hs
+  | copy k br line i => simp only [hph] at hs; split at hs <;> cases hs
+  | fin k => simp only [hph] at hs; cases hs
+  | flush br => simp only [hph] at hs; cases hs
+
 /-! ### a concrete finished run (non-vacuity witness used by Props/C04): tee of a Lock(sink) and a 5-byte
     BufferedWriteSyncer, a 6-byte line, a goroutine issuing the closing Syncs -/
 
